@@ -138,15 +138,39 @@ func kcode(k string) string {
 	return k
 }
 
-func renderStmt(sb *strings.Builder, nm *Naming, f, i int, st Stmt) {
+// Every use is written in one of several syntactic forms that have the same
+// typing evidence and the same effect (the resolver handles each through a
+// different branch of its visitor); the form is a function of the statement's
+// place and of the program, not of the rendering, so that all renderings of
+// one program print the same.
+func renderStmt(sb *strings.Builder, nm *Naming, f, i int, st Stmt, salt int) {
 	sb.WriteString("  ")
+	form := (f*5 + i*3 + salt) % 4
 	switch st.K {
 	case "s":
 		v := varName(nm, f, *st.V)
-		fmt.Fprintf(sb, "%s = %s \"x\"; printf \"%d.%d s %%d\\n\", length(%s)\n", v, v, f, i, v)
+		switch form {
+		case 1:
+			fmt.Fprintf(sb, "sub(/$/, \"x\", %s)", v) // append one character through sub()'s target
+		case 2:
+			fmt.Fprintf(sb, "%s = sprintf(\"%%sx\", %s)", v, v)
+		default:
+			fmt.Fprintf(sb, "%s = %s \"x\"", v, v)
+		}
+		fmt.Fprintf(sb, "; printf \"%d.%d s %%d\\n\", length(%s)\n", f, i, v)
 	case "a":
 		v := varName(nm, f, *st.V)
-		fmt.Fprintf(sb, "%s[length(%s)] = 1; printf \"%d.%d a %%d\\n\", length(%s)\n", v, v, f, i, v)
+		switch form {
+		case 1:
+			fmt.Fprintf(sb, "if (!((length(%s)) in %s)) %s[length(%s)] = 1", v, v, v, v) // InExpr
+		case 2:
+			fmt.Fprintf(sb, "delete %s[-1]; %s[length(%s)] = 1", v, v, v) // DeleteStmt
+		case 3:
+			fmt.Fprintf(sb, "for (kk in %s) kk = kk; %s[length(%s)] = 1", v, v, v) // ForInStmt
+		default:
+			fmt.Fprintf(sb, "%s[length(%s)] = 1", v, v)
+		}
+		fmt.Fprintf(sb, "; printf \"%d.%d a %%d\\n\", length(%s)\n", f, i, v)
 	case "len":
 		v := varName(nm, f, *st.V)
 		fmt.Fprintf(sb, "printf \"%d.%d l %%d\\n\", length(%s)\n", f, i, v)
@@ -165,14 +189,23 @@ func renderStmt(sb *strings.Builder, nm *Naming, f, i int, st Stmt) {
 	}
 }
 
+func salt(p *Prog) int {
+	n := len(p.Main)
+	for _, fn := range p.Funcs {
+		n += 2*fn.Np + len(fn.Body)
+	}
+	return n
+}
+
 // Render writes the program with its functions in the given order; the BEGIN
 // block comes first or last.
 func Render(p *Prog, nm *Naming, order []int, mainLast bool) string {
 	var sb strings.Builder
+	sl := salt(p)
 	main := func() {
 		sb.WriteString("BEGIN {\n")
 		for i, st := range p.Main {
-			renderStmt(&sb, nm, 0, i+1, st)
+			renderStmt(&sb, nm, 0, i+1, st, sl)
 		}
 		sb.WriteString("}\n")
 	}
@@ -187,7 +220,7 @@ func Render(p *Prog, nm *Naming, order []int, mainLast bool) string {
 		}
 		fmt.Fprintf(&sb, "function %s(%s) {\n", nm.Func(f), strings.Join(ps, ", "))
 		for i, st := range fn.Body {
-			renderStmt(&sb, nm, f, i+1, st)
+			renderStmt(&sb, nm, f, i+1, st, sl)
 		}
 		sb.WriteString("}\n")
 	}
